@@ -232,13 +232,26 @@ def _h_build(name):
         d1 = pd.DataFrame({"a": [1.0, 2.0], "b": [1.0, 2.0]})
         d2 = pd.DataFrame({"a": ["1", "2"], "b": ["3", "4"]})
         return [lambda: s.validate(d1), lambda: s.validate(d2)], {"s": s}
+    if name == "H10_polars_shared_coercing_schema":
+        # two threads, one polars schema whose columns coerce: a component attribute overridden for the duration of one
+        # thread's validation would be seen by the other thread's coercion phase
+        s = pp.DataFrameSchema({"a": pp.Column(int, pa.Check.ge(0), coerce=True), "b": pp.Column(float, coerce=True)})
+        d1 = pl.DataFrame({"a": ["1", "2"], "b": ["1.5", "2.5"]})
+        d2 = pl.DataFrame({"a": [3.0, 4.0], "b": [1, 2]})
+        return [lambda: s.validate(d1), lambda: s.validate(d2)], {"s": s}
+    if name == "H11_polars_frame_dtype_shared":
+        s = pp.DataFrameSchema({"a": pp.Column(checks=pa.Check.ge(0), coerce=True), "b": pp.Column(coerce=True)}, dtype=int)
+        d1 = pl.DataFrame({"a": ["1", "2"], "b": ["3", "4"]})
+        d2 = pl.DataFrame({"a": [1.0, 2.0], "b": [3.0, 4.0]})
+        return [lambda: s.validate(d1), lambda: s.validate(d2)], {"s": s}
     raise AssertionError(name)
 
 
 HARNESSES = ["H0_pandas_distinct_schemas", "H1_pandas_shared_coercing_schema", "H2_pandas_shared_schema_pass_fail_lazy",
              "H2b_pandas_shared_noncoercing_eager", "H3_polars_dataframe_vs_lazyframe", "H3b_polars_two_dataframes",
              "H4_polars_vs_pandas_in_user_context", "H5_two_schemas_sharing_one_column", "H6_model_cold_cache",
-             "H7_three_threads", "H8_shared_regex_schema_one_failing", "H9_frame_dtype_override_shared"]
+             "H7_three_threads", "H8_shared_regex_schema_one_failing", "H9_frame_dtype_override_shared",
+             "H10_polars_shared_coercing_schema", "H11_polars_frame_dtype_shared"]
 
 
 def _prepare(name):
